@@ -37,9 +37,16 @@ def build(rnd):
     src = "import deal, functools\ndef logged(fn):\n    @functools.wraps(fn)\n    def w(*a, **k): return fn(*a, **k)\n    return w\n"
     pexc = rnd.choice([None, None, "ValueError", "KeyError"])      # a custom precondition error type that the body may raise too
     decos = [f"@deal.pre({p}{', exception=' + pexc if pexc else ''})\n" for p, _ in pres]
+    dependent = False
+    if types[0] == "int" and rnd.random() < .2:
+        # a precondition that is only defined where the one BELOW it holds (the runtime evaluates them bottom-up)
+        args_ = ', '.join(names)
+        decos.insert(0, f"@deal.pre(lambda {args_}: 100 // {names[0]} >= 0)\n"); decos.append(f"@deal.pre(lambda {args_}: {names[0]} > 0)\n")
+        pres = pres + [(f"lambda {args_}: {names[0]} > 0", 0)]
+        dependent = True
     if raises: decos.append(f"@deal.raises({raises})\n")
     if post: decos.append("@deal.post(lambda r: r != 12345)\n")
-    if rnd.random() < .3:
+    if rnd.random() < .3 and not dependent:      # (a foreign layer between the two would put them into different registries: the outer one is then evaluated first, also at run time)
         # functools.wraps-style foreign decorators above / between / below the deal decorators
         for _ in range(rnd.randint(2, 3)): decos.insert(rnd.randint(0, max(0, len(decos) - 1)), "@logged\n")
     src += "".join(decos)
